@@ -10,8 +10,17 @@ from vlib import env, guard, hyp, par
 from vlib.bucket import exc_bucket, exc_text
 from vlib.run import Part, h
 
+import collections
+
 MODES = ["plain", "expand_all", "pre_expand"]
+# "returns normally": parse() of an input of at most SHORT_LEN characters
+# that is still running after PARSE_BOUND_S is reported (normal time: 1 ms;
+# the quadratic scans the tokenizer has stay under a second at that size, a
+# step count exponential in the input does not).  On longer inputs a parse
+# that exceeds the bound is only counted as inconclusive.
 PARSE_BOUND_S = 30.0
+SHORT_LEN = 600
+INCONCLUSIVE = collections.Counter()
 
 # Template library for modes (b)/(c): bodies that emit structure.
 LIB = {
@@ -51,6 +60,9 @@ def check_one(ctx, text, mode):
         status, root, el = guard.call(ctx.parse, PARSE_BOUND_S, text, **kw)
         if status == "timeout":
             ctx.parser_stack = []
+            if len(text) > SHORT_LEN:
+                INCONCLUSIVE["inconclusive:slow-parse-of-long-input"] += 1
+                return None
             return ({"kind": "timeout", "mode": mode},
                     f"parse() still running after {PARSE_BOUND_S:.0f} s")
         if status == "exc":
@@ -149,6 +161,74 @@ def shard(idx, seed, n_soup, n_doc, n_mut, n_deep, known):
                 break
     finally:
         ctx.close_db_conn()
+    flush_inconclusive(part)
+    return part.to_dict()
+
+
+def flush_inconclusive(part):
+    for k, v in INCONCLUSIVE.items():
+        part.excluded[k] += v
+    INCONCLUSIVE.clear()
+
+
+# pump stage: an opener followed by many repetitions of one unit (or a pair of
+# units).  Step counts that double per repetition (ambiguous regular
+# expressions, positions expanded twice) show up as a parse that does not
+# return; nothing here nests deeper than the opener.
+PUMP_OPENERS = ["", "{{x", "{{x|", "{{{x|", "{{#if:x|", "[[a", "[[a|",
+                "[http://x.org ", "<b>", "<span ", "{|\n|", "-{", "<ref>",
+                "<nowiki>", "<!--", "'''", "== ", "<pre>", "\n* "]
+PUMP_UNITS = ["-{}-", "-{", "}-", "{", "}", "{{", "}}", "[", "]", "[[", "]]",
+              "|", "||", "\n|", "\n!", "''", "'''", "<", ">", "</", "<b", "<b>",
+              "</b>", "<br>", "<!--", "-->", "&", "&amp;", "=", "==", "\n", " ",
+              "x", "a=", "://", "http://x.org", "{|", "|}", "\n*", "\n:", ";",
+              "__TOC__", "<nowiki/>", "{{{", "}}}", "[[a|", "{{t|", "~~~~", "\\"]
+PUMP_N = 40
+
+
+def pump_cases(quick):
+    import itertools
+
+    for o in PUMP_OPENERS:
+        for u in PUMP_UNITS:
+            yield o + u * PUMP_N
+    pair_units = PUMP_UNITS[:24] if quick else PUMP_UNITS
+    for o in PUMP_OPENERS[: 8 if quick else len(PUMP_OPENERS)]:
+        for a, b in itertools.permutations(pair_units, 2):
+            yield o + (a + b) * (PUMP_N // 2)
+
+
+def pump_shard(idx, nshards, quick, known):
+    from vlib.run import sig_matches
+
+    env.setup()
+    part = Part()
+    ctx = make_ctx()
+    buckets = {}
+    try:
+        for j, text in enumerate(pump_cases(quick)):
+            if j % nshards != idx:
+                continue
+            modes = MODES if (not quick or (j // nshards) % 3 == 0) else ["plain"]
+            for mode in modes:
+                r = check_one(ctx, text, mode)
+                part.case(h(text + "\0" + mode), True,
+                          classes=["gen:pump", "mode:" + mode],
+                          sample={"text": text[:80], "mode": mode})
+                if r is None:
+                    continue
+                sig, what = r
+                if any(sig_matches(k["signature"], sig) for k in known):
+                    part.excluded["known"] += 1
+                    continue
+                key = h(sig)
+                if key not in buckets or len(text) < len(buckets[key][2]["text"]):
+                    buckets[key] = (sig, what, {"text": text, "mode": mode})
+    finally:
+        ctx.close_db_conn()
+    flush_inconclusive(part)
+    for sig, what, rep in buckets.values():
+        part.violation(sig, what, rep)
     return part.to_dict()
 
 
@@ -170,6 +250,9 @@ def run(run):
                              for i in range(procs)], procs):
         run.merge(d)
     run.extra["core_alphabet_size"] = len(CORE)
+    for d in par.map_shards(pump_shard, [(i, procs, quick, run.known)
+                                         for i in range(procs)], procs):
+        run.merge(d)
     fuzz_stage(run, quick)
     run.rule = (
         "Hypothesis-generated token soups over the full wikitext token "
@@ -180,7 +263,10 @@ def run(run):
         f"exhaustively, every triple over a {len(CORE)}-token core alphabet "
         "(one or two representatives of every token class; all three modes "
         "in the thorough tier, plain mode plus every 7th triple in the other "
-        "modes in the quick tier); "
+        "modes in the quick tier); pumped inputs (every opener x 40 "
+        "repetitions of every unit, and of ordered unit pairs) against a "
+        f"{PARSE_BOUND_S:.0f} s bound per parse, decisive for inputs of at most "
+        f"{SHORT_LEN} characters; "
         "plus coverage-guided atheris campaigns (structured token-index and "
         "raw UTF-8 decodings, empty and seeded corpus) with the same oracle "
         "inside the target. "
@@ -249,6 +335,7 @@ def ngram_shard(idx, nshards, stride, known):
     finally:
         ctx.close_db_conn()
     part.classes["gen:core-token-triples"] += part.evaluations
+    flush_inconclusive(part)
     for sig, what, rep in buckets.values():
         part.violation(sig, what, rep)
     return part.to_dict()
